@@ -55,9 +55,14 @@ class Spy(core.Algo):
 
 
 def frame(prog, table, with_cols=None):
+    """table: {col: [values]}; an optional "__idx__": [data row numbers] makes
+    the frame sparser than the calendar (only those dates are present)."""
     idx = dates_of(prog)
-    cols = with_cols or list(table.keys())
-    return pd.DataFrame({c: [float("nan") if v is None else float(v) for v in table[c]] for c in cols}, index=idx)
+    cols = with_cols or [c for c in table.keys() if c != "__idx__"]
+    df = pd.DataFrame({c: [float("nan") if v is None else (v if isinstance(v, bool) else float(v)) for v in table[c]] for c in cols}, index=idx)
+    if "__idx__" in table:
+        df = df.iloc[list(table["__idx__"])]
+    return df
 
 
 def dates_of(prog):
